@@ -43,59 +43,9 @@ def cfg_variant(cfg, work, subst, suffix):
 # ----------------------------------------------------------------------------- replay (tolerant reader)
 
 def _run_chunk(cases, workdir, name, env, timeout_ms):
-    """vlib._run_replay_chunk with a tolerant reader: an observation of a string whose storage was corrupted is not
-    valid UTF-8 in the verdict file; it must become a (mismatching) observation, not a tool error."""
-    import subprocess
-    cpath = os.path.join(workdir, f"{name}.cases.ndjson")
-    opath = os.path.join(workdir, f"{name}.out.ndjson")
-    with open(cpath, "w") as f:
-        for c in cases:
-            f.write(json.dumps(c) + "\n")
-    if os.path.exists(opath):
-        os.remove(opath)
-    verdicts, skip, restarts = {}, 0, 0
-    while skip < len(cases):
-        before = os.path.getsize(opath) if os.path.exists(opath) else 0
-        p = subprocess.Popen([os.path.join(vlib.BIN, "replay"), cpath, opath, "--timeout-ms", str(timeout_ms),
-                              "--skip", str(skip)], env=env, stdin=subprocess.DEVNULL, stdout=subprocess.DEVNULL,
-                             stderr=subprocess.DEVNULL)
-        p.wait()
-        rc = p.returncode
-        started, done = None, False
-        with open(opath, "rb") as f:
-            f.seek(before)
-            for raw in f:
-                line = raw.decode("utf-8", errors="replace").strip()
-                if not line:
-                    continue
-                try:
-                    o = json.loads(line)
-                except Exception:
-                    continue
-                if "start" in o:
-                    started = o
-                elif "done" in o:
-                    done = True
-                elif "id" in o and "timeout" not in o:
-                    verdicts[o["id"]] = o
-                    if started and started["start"] == o["id"]:
-                        started = None
-        if done and rc == 0:
-            break
-        if started is None:
-            if rc == 2:
-                raise vlib.ToolError(f"replayer rejected its input ({cpath})")
-            raise vlib.ToolError(f"replayer died (rc={rc}) outside any case ({cpath})")
-        n, cid = started["n"], started["start"]
-        kind = "hang" if rc == 97 else f"crash(rc={rc})"
-        verdicts[cid] = {"id": cid, "tag": cases[n].get("tag", ""), "pass": False, "why": f"process {kind}", "step": 0,
-                         "got": [{"class": kind, "emit": [], "val": None, "msg": None}]}
-        skip = n + 1
-        restarts += 1
-        if restarts > 400:
-            raise vlib.ToolError("too many replayer restarts")
-    return [verdicts.get(c["id"]) or {"id": c["id"], "tag": c.get("tag", ""), "pass": False, "why": "no verdict",
-                                      "step": 0, "got": []} for c in cases]
+    """vlib's chunk runner (tolerant reader: corrupted string storage becomes a mismatching observation; a process
+    death right after a verdict is attributed to that case's teardown)"""
+    return vlib._run_replay_chunk(cases, workdir, name, env, timeout_ms, restarts_max=400)
 
 
 def replay(cases, workdir, env_extra=None, jobs=12, timeout_ms=10000, name="replay"):
